@@ -132,7 +132,13 @@ def names_of_module(tree) -> dict:
                     names |= {n.id for n in ast.walk(t) if isinstance(n, ast.Name)}
             cconsts[node.name] = sorted(names)
     attrs = sorted({n.attr for n in ast.walk(tree) if isinstance(n, ast.Attribute)})
-    return {'consts': sorted(consts), 'funcs': funcs, 'kws': kws, 'class_consts': cconsts, 'attrs': attrs}
+    enumerated = {}
+    for q, f, _ in func_quals(tree):
+        en = sorted({n.iter.args[0].attr for n in ast.walk(f) if isinstance(n, ast.For) and isinstance(n.iter, ast.Call) and isinstance(n.iter.func, ast.Name)
+                     and n.iter.func.id == 'enumerate' and len(n.iter.args) == 1 and isinstance(n.iter.args[0], ast.Attribute)})
+        if en:
+            enumerated[q] = en
+    return {'consts': sorted(consts), 'funcs': funcs, 'kws': kws, 'class_consts': cconsts, 'attrs': attrs, 'enumerated': enumerated}
 
 
 def keyword_uses(func) -> set:
@@ -1316,6 +1322,11 @@ class Normaliser:
                         val[i:i + 1] = repl
             self.log.append(f'N8 new dictionary attribute {F} with fixed keys {sorted(keys)} taken apart into one attribute per key ({len(uses)} use(s))')
 
+    def _base_attr_enumerated(self, path, qual):
+        """attributes the reference version of this function already walks with enumerate(..): such loops are left as they are"""
+        bm = self.base.get(path) or {}
+        return set(bm.get('enumerated', {}).get(qual, ()))
+
     def _fuse_generator(self, loop, fctx):
         """for T in zip(a, G(args), b): BODY   with G a new loop generator   ->   G's loop over its own iterable zipped with a, b,
         with `T_k = <yielded value>; BODY` in place of the yield"""
@@ -2026,6 +2037,31 @@ class Normaliser:
                                 out.extend(_canon_polarity(_prune_constant_tests(chain)))
                                 norm.log.append(f'N7 {path}::{qual}: first-match loop over a literal table of {len(elems)} rows rewritten as an if/elif chain')
                                 continue
+                # (1b) for i, x in enumerate(self.a.b): BODY   (x a new name)   ->   for i in range(len(self.a.b)): BODY[x := self.a.b[i]]
+                if isinstance(st, ast.For) and isinstance(st.target, ast.Tuple) and len(st.target.elts) == 2 and all(isinstance(e, ast.Name) for e in st.target.elts) \
+                        and isinstance(st.iter, ast.Call) and isinstance(st.iter.func, ast.Name) and st.iter.func.id == 'enumerate' and len(st.iter.args) == 1 and not st.iter.keywords \
+                        and isinstance(st.iter.args[0], ast.Attribute) and _attr_chain_only(st.iter.args[0]) \
+                        and (st.iter.args[0].attr not in norm._base_attr_enumerated(path, qual)):
+                    iv, xv, P = st.target.elts[0].id, st.target.elts[1].id, st.iter.args[0]
+                    body_nodes = [n for b_ in st.body + st.orelse for n in ast.walk(b_)]
+                    root, attrs = root_and_attrs(P)
+                    subst_form = xv not in known and xv not in later
+                    disturbed = any(isinstance(n, ast.Name) and n.id in ((iv, xv, root) if subst_form else (iv, root)) and isinstance(n.ctx, (ast.Store, ast.Del)) for n in body_nodes) \
+                        or any(isinstance(n, ast.Attribute) and isinstance(n.ctx, (ast.Store, ast.Del)) and n.attr in attrs for n in body_nodes) \
+                        or any(isinstance(n, ast.Call) and isinstance(n.func, ast.Attribute) and n.func.attr in ('append', 'insert', 'pop', 'remove', 'sort', 'reverse', 'clear', 'extend')
+                               and ast.dump(n.func.value) == ast.dump(P) for n in body_nodes) \
+                        or any(isinstance(n, ast.Subscript) and isinstance(n.ctx, (ast.Store, ast.Del)) and ast.dump(n.value) == ast.dump(P) for n in body_nodes) \
+                        or any(isinstance(n, (ast.Lambda, ast.FunctionDef)) for n in body_nodes)
+                    if not disturbed:
+                        item = ast.Subscript(value=copy.deepcopy(P), slice=ast.Name(id=iv, ctx=ast.Load()), ctx=ast.Load())
+                        if subst_form:
+                            tr_ = _Rename({}, {xv: item})
+                            st.body = [tr_.visit(b_) for b_ in st.body]
+                        else:       # the item name exists on the reference tree: bind it at the top of the body, as an index loop does
+                            st.body = [ast.copy_location(ast.Assign(targets=[ast.Name(id=xv, ctx=ast.Store())], value=item, lineno=st.lineno), st)] + st.body
+                        st.target = ast.copy_location(ast.Name(id=iv, ctx=ast.Store()), st.target)
+                        st.iter = ast.copy_location(ast.Call(func=ast.Name(id='range', ctx=ast.Load()), args=[ast.Call(func=ast.Name(id='len', ctx=ast.Load()), args=[copy.deepcopy(P)], keywords=[])], keywords=[]), st.iter)
+                        norm.log.append(f'N7 {path}::{qual}: enumerate({ast.unparse(P)}) with the new item name {xv} rewritten as an index loop')
                 # (2) for V in itertools.count(): if C: break; BODY   ->   V = 0; while not C: BODY; V += 1
                 if isinstance(st, ast.For) and isinstance(st.target, ast.Name) and isinstance(st.iter, ast.Call) and isinstance(st.iter.func, ast.Attribute) \
                         and st.iter.func.attr == 'count' and isinstance(st.iter.func.value, ast.Name) and st.iter.func.value.id == 'itertools' \
@@ -2512,6 +2548,8 @@ class Normaliser:
                     if ra and ra[0] in deps and ra[0] != v:
                         if ra[0] == 'self' and not reads_self_fields:
                             continue
+                        if ra[1] and deps[ra[0]] and ra[1][0] not in deps[ra[0]]:
+                            continue        # the callee receives the object behind another attribute, not the object R reads from
                         return True
         return False
 
